@@ -128,6 +128,11 @@ def run(facts, rep, tier, ctx):
             op = desc.split(":")[0]
             if op in want and (any(("'%s" % g) in desc for g in want[op][1]) or desc.endswith(" present")):
                 rep.ob("A/" + want[op][0], o["fn"], desc, o["ok"], o["detail"], o["loc"])
+    # R03.5s every entry's parent is a directory — in the overlay's union too: file-over-directory shadowing (F36; C09 R09.12)
+    from .c10 import _Prefixed as _Pf3s
+    for w3s in (ws, wa):
+        if w3s.present():
+            __import__("analysis.props.c09", fromlist=["shadowing_rules"]).shadowing_rules(facts, rep if not w3s.asyncw else _Pf3s(rep, "A"), w3s, "R03.5s/R09.12")
     # R03.11 create_dir_all creates every missing segment through the backend and tolerates "already a directory" only from the
     # backend's own answer: a remembered "this directory exists" (a cache on the shared VFS object) outlives a remove_dir and lets a
     # directory be created below what has meanwhile become a file (shared with C01 R01.1c / C17 R17.1)
